@@ -8,7 +8,7 @@ directory and waits for the harness to let it go, kill it, or tear the write.
 import os, sys, json, builtins, io, importlib, importlib.machinery, traceback, signal
 from bv import ir
 
-RAWS = [bytes(range(1, 17)), b"\x02\x00\x03abcdef\r\n;xyz\x00\x00", b"\xff\xfe\xfd\xfc\xfb\xfa\xf9\xf8\x00\x01", b"\x01"]
+RAWS = [bytes(range(1, 17)), b"\x02\x00\x03abcdef\r\n;xyz\x00\x00", b"\xff\xfe\xfd\xfc\xfb\xfa\xf9\xf8\x00\x01", b"\x01", b"\x05ab"]
 
 
 def pkt(name, fields, opts=None):
@@ -38,6 +38,11 @@ def variant_catalogue():
     add("hb_unpackonly", [I("a", 1), I("b", 2)], {"generate_for_pack": False})
     add("bh_off", [I("a", 2), I("b", 1)], {"generate_for_pack": False, "generate_for_unpack": False})
     add("odd", [I("a", 3), I("b", 1)])
+    add("odd_last", [I("a", 1), I("b", 3)])
+    add("four_abcd", [I("a", 1), I("b", 1), I("c", 1), I("d", 1)])
+    add("four_acbd", [I("a", 1), I("c", 1), I("b", 1), I("d", 1)])        # same formats, same first/last names, inner names swapped
+    add("mix_abcd", [I("a", 2), I("b", 1), I("c", 1, True), I("d", 2)], {"annotate": False})
+    add("mix_acbd", [I("a", 2), I("c", 1), I("b", 1, True), I("d", 2)], {"annotate": False})
     add("data", [I("n", 1), {"k": "data", "name": "d", "size": ["field", "n"], "incl": False}, I("t", 1)])
     add("marker", [{"k": "data", "name": "d", "size": ["marker", b"\r\n"], "incl": False}, I("t", 1)])
     add("seq", [I("n", 1), {"k": "seq", "name": "s", "elem": I("_", 1), "count": ["field", "n"]}])
